@@ -32,6 +32,7 @@ import (
 
 	"verif/mc/explore"
 	"verif/mc/gram"
+	"verif/mc/hook"
 	"verif/mc/impl"
 	"verif/mc/ix"
 	"verif/mc/sched"
@@ -41,7 +42,7 @@ import (
 var current *sched.Exec
 
 func init() {
-	parsley.VerifHook = func() {
+	hook.Yield = func() {
 		if current != nil {
 			current.Point()
 		}
